@@ -23,6 +23,8 @@ def schema_str(s):
     if k == "TSS":
         return f"TSS[{s[1]}]"
     if k == "TSW":
+        if isinstance(s[2], (list, tuple)):      # ("dur", R): a duration window holding the pushes of the last R time units
+            return f"TSWD[{s[1]},{s[2][1]}]"
         return f"TSW[{s[1]},{s[2]},{s[3]}]"
     if k == "TSD":
         return f"TSD[{s[1]},{schema_str(s[2])}]"
@@ -103,6 +105,7 @@ class M:
             self.value = [M(c) for _, c in schema[1]]
         elif self.k == "TSW":
             self.value = []
+            self.times = []
             self.count = 0
         self.pre = None  # value at the start of the cycle (sets/dict keys) for delta expectations
         self.erased_now = set()
@@ -208,6 +211,16 @@ class M:
                 self.lmt = -1
             return False
         if k == "tick":
+            self.mark(t)
+            return True
+        if k == "push" and isinstance(self.s[2], (list, tuple)):
+            # duration window: entries older than the range are pruned when a new value is pushed
+            self.value.append(op["v"])
+            self.times.append(t)
+            self.count += 1
+            while self.times and self.times[0] < t - self.s[2][1]:
+                self.times.pop(0)
+                self.value.pop(0)
             self.mark(t)
             return True
         if k == "push":
